@@ -411,6 +411,7 @@ func (r *coreRun) runThread(ts ThreadSpec) {
 	// metric handles this thread obtained with "get": later operations of the thread on that metric go through the
 	// handle it holds (what an application that keeps its handles does), not through a new lookup by name
 	held := map[string]interface{}{}
+	heldObj := map[string]int{} // the scope object a held handle was obtained from
 	hk := func(op Op, kind string) string { return op.H + "\x00" + op.M + "\x00" + kind }
 	for _, op := range ts.Ops {
 		r.s.Yield("op_" + op.Op)
@@ -461,13 +462,16 @@ func (r *coreRun) runThread(ts ThreadSpec) {
 			r.log(M{"e": "inc", "t": ts.Name, "id": renderID(qualify(h.prefix, r.nm(op.M)), h.tags), "o": h.obj, "v": op.V, "inert": h.inert})
 		case "upd":
 			g, ok := held[hk(op, "gauge")].(tally.Gauge)
-			if !ok {
+			uo := h.obj
+			if ok {
+				uo = heldObj[hk(op, "gauge")] // a handle kept from an earlier incarnation of the scope stays bound to that one
+			} else {
 				g = h.s.Gauge(op.M)
 			}
 			id := renderID(qualify(h.prefix, r.nm(op.M)), h.tags)
-			r.log(M{"e": "updcall", "t": ts.Name, "id": id, "v": int(op.V), "inert": h.inert})
+			r.log(M{"e": "updcall", "t": ts.Name, "id": id, "v": int(op.V), "inert": h.inert, "o": uo})
 			g.Update(math.Float64frombits(r.gtab[op.V]))
-			r.log(M{"e": "updret", "t": ts.Name, "id": id, "inert": h.inert})
+			r.log(M{"e": "updret", "t": ts.Name, "id": id, "inert": h.inert, "o": uo})
 		case "rec":
 			tm, ok := held[hk(op, "timer")].(tally.Timer)
 			if !ok {
@@ -527,6 +531,7 @@ func (r *coreRun) runThread(ts ThreadSpec) {
 			}
 			if op.K != "scope" {
 				held[hk(op, op.K)] = x
+				heldObj[hk(op, op.K)] = h.obj
 			}
 			r.log(M{"e": "got", "t": ts.Name, "k": op.K, "id": renderID(qualify(h.prefix, r.nm(op.M)), h.tags), "so": h.obj, "obj": r.metricObj(x)})
 		case "close":
